@@ -2,6 +2,7 @@ package main
 
 import (
 	"bytes"
+	"os"
 	"encoding/json"
 	"fmt"
 	"net/url"
@@ -149,6 +150,28 @@ func c27gens(nodes []base.LocalNode) []c27gen {
 			return vp, nil
 		}
 	}
+	validAVP := func(c *Ctx, kind int) (base.ACCEPTVoteproof, error) {
+		for {
+			vp, err := acceptVP(c, kind)
+			if err != nil {
+				return nil, err
+			}
+			if vp.BallotMajority() != nil && vp.IsValid(hNetworkID) == nil {
+				return vp, nil
+			}
+		}
+	}
+	validIVP := func(c *Ctx, kind int) (base.INITVoteproof, error) {
+		for {
+			vp, err := initVP(c, kind)
+			if err != nil {
+				return nil, err
+			}
+			if vp.BallotMajority() != nil && vp.IsValid(hNetworkID) == nil {
+				return vp, nil
+			}
+		}
+	}
 	manifest := func(c *Ctx) isaac.Manifest {
 		var prev util.Hash = h()
 		return isaac.NewManifest(base.Height(int64(c.Intn(100))), prev, h(), h(), h(), h(), time.Now().UTC())
@@ -163,13 +186,14 @@ func c27gens(nodes []base.LocalNode) []c27gen {
 		}
 		return m, m.Sign(nodes[0].Address(), nodes[0].Privatekey(), hNetworkID)
 	}
-	sufState := func(c *Ctx) base.State {
+	sufStateAt := func(c *Ctx, height base.Height) base.State {
 		var svs []base.SuffrageNodeStateValue
 		for _, nd := range nodes[:1+c.Intn(len(nodes))] {
 			svs = append(svs, isaac.NewSuffrageNodeStateValue(nd, base.Height(int64(c.Intn(30)))))
 		}
-		return base.NewBaseState(base.Height(int64(33+c.Intn(10))), isaac.SuffrageStateKey, isaac.NewSuffrageNodesStateValue(base.Height(int64(c.Intn(20))), svs), h(), c27hashes(c, 1+c.Intn(3)))
+		return base.NewBaseState(height, isaac.SuffrageStateKey, isaac.NewSuffrageNodesStateValue(base.Height(int64(c.Intn(20))), svs), h(), c27hashes(c, 1+c.Intn(3)))
 	}
+	sufState := func(c *Ctx) base.State { return sufStateAt(c, base.Height(int64(33+c.Intn(10)))) }
 	return []c27gen{
 		{"init-voteproof", func(c *Ctx) (interface{}, error) { return initVP(c, 0) }},
 		{"init-expel-voteproof", func(c *Ctx) (interface{}, error) { return initVP(c, 1) }},
@@ -179,25 +203,70 @@ func c27gens(nodes []base.LocalNode) []c27gen {
 		{"accept-expel-voteproof", func(c *Ctx) (interface{}, error) { return acceptVP(c, 1) }},
 		{"accept-stuck-voteproof", func(c *Ctx) (interface{}, error) { return acceptVP(c, 2) }},
 		{"init-ballot", func(c *Ctx) (interface{}, error) {
-			avp, err := acceptVP(c, 0)
+			avp, err := validAVP(c, 0)
 			if err != nil {
 				return nil, err
 			}
 			point := base.NewPoint(avp.Point().Height()+1, 0)
 			expels, efacts := c27expels(c, point, nodes[:2], c.Intn(2))
-			fact := isaac.NewINITBallotFact(point, h(), h(), efacts)
+			fact := isaac.NewINITBallotFact(point, avp.BallotMajority().NewBlock(), h(), efacts)
 			sf := isaac.NewINITBallotSignFact(fact)
 			if err := sf.NodeSign(nodes[0].Privatekey(), hNetworkID, nodes[0].Address()); err != nil {
 				return nil, err
 			}
 			return isaac.NewINITBallot(avp, sf, expels), nil
 		}},
-		{"init-ballot-empty-proposal", func(c *Ctx) (interface{}, error) {
-			avp, err := acceptVP(c, 0)
+		{"init-ballot-under-expel-voteproof", func(c *Ctx) (interface{}, error) {
+			// the ballot itself carries no expels, the ACCEPT voteproof it follows does
+			avp, err := validAVP(c, 1)
 			if err != nil {
 				return nil, err
 			}
-			fact := isaac.NewEmptyProposalINITBallotFact(base.NewPoint(avp.Point().Height()+1, 0), h(), h())
+			fact := isaac.NewINITBallotFact(base.NewPoint(avp.Point().Height()+1, 0), avp.BallotMajority().NewBlock(), h(), nil)
+			sf := isaac.NewINITBallotSignFact(fact)
+			if err := sf.NodeSign(nodes[0].Privatekey(), hNetworkID, nodes[0].Address()); err != nil {
+				return nil, err
+			}
+			return isaac.NewINITBallot(avp, sf, nil), nil
+		}},
+		{"suffrage-confirm-ballot", func(c *Ctx) (interface{}, error) {
+			// follows the INIT expel voteproof of its own point; its fact names the expel facts, its body has no expels
+			ivp, err := validIVP(c, 1)
+			if err != nil {
+				return nil, err
+			}
+			var efacts []util.Hash
+			if w, ok := ivp.(base.HasExpels); ok {
+				for _, e := range w.Expels() {
+					efacts = append(efacts, e.Fact().Hash())
+				}
+			}
+			mfact := ivp.BallotMajority()
+			fact := isaac.NewSuffrageConfirmBallotFact(ivp.Point().Point, mfact.PreviousBlock(), mfact.Proposal(), efacts)
+			sf := isaac.NewINITBallotSignFact(fact)
+			if err := sf.NodeSign(nodes[1].Privatekey(), hNetworkID, nodes[1].Address()); err != nil {
+				return nil, err
+			}
+			return isaac.NewINITBallot(ivp, sf, nil), nil
+		}},
+		{"accept-ballot-under-expel-voteproof", func(c *Ctx) (interface{}, error) {
+			ivp, err := validIVP(c, 1)
+			if err != nil {
+				return nil, err
+			}
+			fact := isaac.NewACCEPTBallotFact(ivp.Point().Point, ivp.BallotMajority().Proposal(), h(), nil)
+			sf := isaac.NewACCEPTBallotSignFact(fact)
+			if err := sf.NodeSign(nodes[1].Privatekey(), hNetworkID, nodes[1].Address()); err != nil {
+				return nil, err
+			}
+			return isaac.NewACCEPTBallot(ivp, sf, nil), nil
+		}},
+		{"init-ballot-empty-proposal", func(c *Ctx) (interface{}, error) {
+			avp, err := validAVP(c, 0)
+			if err != nil {
+				return nil, err
+			}
+			fact := isaac.NewEmptyProposalINITBallotFact(base.NewPoint(avp.Point().Height()+1, 0), avp.BallotMajority().NewBlock(), h())
 			sf := isaac.NewINITBallotSignFact(fact)
 			if err := sf.NodeSign(nodes[0].Privatekey(), hNetworkID, nodes[0].Address()); err != nil {
 				return nil, err
@@ -205,16 +274,17 @@ func c27gens(nodes []base.LocalNode) []c27gen {
 			return isaac.NewINITBallot(avp, sf, nil), nil
 		}},
 		{"accept-ballot", func(c *Ctx) (interface{}, error) {
-			ivp, err := initVP(c, 0)
+			ivp, err := validIVP(c, 0)
 			if err != nil {
 				return nil, err
 			}
-			var fact base.ACCEPTBallotFact = isaac.NewACCEPTBallotFact(ivp.Point().Point, h(), h(), nil)
+			pr := ivp.BallotMajority().Proposal()
+			var fact base.ACCEPTBallotFact = isaac.NewACCEPTBallotFact(ivp.Point().Point, pr, h(), nil)
 			switch c.Intn(4) {
 			case 0:
-				fact = isaac.NewEmptyOperationsACCEPTBallotFact(ivp.Point().Point, h())
+				fact = isaac.NewEmptyOperationsACCEPTBallotFact(ivp.Point().Point, pr)
 			case 1:
-				fact = isaac.NewNotProcessedACCEPTBallotFact(ivp.Point().Point, h())
+				fact = isaac.NewNotProcessedACCEPTBallotFact(ivp.Point().Point, pr)
 			}
 			sf := isaac.NewACCEPTBallotSignFact(fact)
 			if err := sf.NodeSign(nodes[1].Privatekey(), hNetworkID, nodes[1].Address()); err != nil {
@@ -223,9 +293,15 @@ func c27gens(nodes []base.LocalNode) []c27gen {
 			return isaac.NewACCEPTBallot(ivp, sf, nil), nil
 		}},
 		{"proposal-sign-fact", func(c *Ctx) (interface{}, error) {
-			var ops [][2]util.Hash
-			for i := 0; i < c.Intn(5); i++ {
-				ops = append(ops, [2]util.Hash{h(), h()})
+			var ops [][2]util.Hash // nil: the empty proposal of ProposalMaker.preferEmpty
+			switch k := c.Intn(6); {
+			case k < 1:
+			case k < 2: // empty, not nil: a proposer whose pool had nothing to offer
+				ops = [][2]util.Hash{}
+			default:
+				for i := 0; i < 1+c.Intn(4); i++ {
+					ops = append(ops, [2]util.Hash{h(), h()})
+				}
 			}
 			sf := isaac.NewProposalSignFact(isaac.NewProposalFact(c27point(c), nodes[0].Address(), h(), ops))
 			return sf, sf.Sign(nodes[0].Privatekey(), hNetworkID)
@@ -297,7 +373,7 @@ func c27gens(nodes []base.LocalNode) []c27gen {
 			if err != nil {
 				return nil, err
 			}
-			st := sufState(c)
+			st := sufStateAt(c, m.Manifest().Height())
 			keys := []string{st.Hash().String()}
 			for i := 0; i < c.Intn(5); i++ {
 				keys = append(keys, h().String())
@@ -687,9 +763,16 @@ func runC27(c *Ctx) error {
 			}
 			valid := "-"
 			if iv, is := obj.(util.IsValider); is {
-				valid = fmt.Sprint(iv.IsValid(hNetworkID) == nil)
+				verr := iv.IsValid(hNetworkID)
+				valid = fmt.Sprint(verr == nil)
+				if verr != nil && os.Getenv("C27_DEBUG") != "" && n == 0 {
+					fmt.Fprintf(os.Stderr, "INVALID %s: %v\n", g.name, verr)
+				}
 			}
 			c.Count("valid-before-encoding", valid)
+			if valid == "false" {
+				c.Count("invalid-before-encoding", g.name)
+			}
 			b1, err := enc.Marshal(obj)
 			if err != nil {
 				fail("C27:encode-error", err.Error(), nil)
